@@ -661,7 +661,11 @@ def control(d: int, base: str, kind: str) -> np.ndarray:
 
 
 def reject_bases(d):
-    return [k for k in ("ket:g0", "gfull0", "ramp2@F", "flat2@I", f"flat{d}@I") if k in states(d)]
+    out = []
+    for k in ("ket:g0", "gfull0", "ramp2@F", "flat2@I", f"flat{d}@I"):
+        if k in states(d) and k not in out:
+            out.append(k)
+    return out
 
 
 def rejects_cases(tier, seed):
